@@ -207,6 +207,11 @@ def report_violations(mod, prop, agg_viol, gen_case, known, max_reports=6):
             continue
         case = v.get("case") or gen_case(ref)
         small, reproduced = minimise(mod, prop, case, v, known)
+        if not reproduced and v.get("case") is not None and isinstance(ref, int) and ref >= 0:
+            # the single-operation extract does not fail on its own: the violation needs the history before it.
+            # Fall back to the whole generated run.
+            case = gen_case(ref)
+            small, reproduced = minimise(mod, prop, case, v, known)
         res = v2 = None
         if reproduced:
             res = _finish(core.run_case_guarded(mod.execute, small, timeout_s=mod.RUN_TIMEOUT_S, hang_violation=getattr(mod, 'TIMEOUT_IS_VIOLATION', False)))
